@@ -1,5 +1,5 @@
 (* C10: the walk of the handler registry (Registry.get: the first registered handler whose answer is not None).
-   VerifGen.K5R = the registration order of pack.py / unpack.py and the guard of every handler other than the first
+   VerifGen.K110a = the registration order of pack.py / unpack.py and the guard of every handler other than the first
    (K5 / K5P) and the two dispatch chains (K5D), translated over their own test expressions.
    Here: the walk, "the first handler that does not decline answers", and its two consequences for the model of
    positions: a dataclass type is taken by the dataclass handler whatever the later chains would say, and a type on
@@ -8,7 +8,7 @@
 From Coq Require Import List String Ascii ZArith Bool Arith Lia.
 From Verif Require Import Regex PyK PyK_strat PyK_c08 OptProj Strategies StrategiesProofs Positions K5Kernel K5PKernel
                           PositionsProofs Dispatch PositionsV.
-From VerifGen Require Import K5D K5R.
+From VerifGen Require Import K5D K110a.
 Import ListNotations.
 Open Scope string_scope.
 Open Scope list_scope.
